@@ -229,7 +229,9 @@ def run(chk):
         chk.case(kind, f"{r['name']}:{job[2] if len(job) > 2 else ''}", n=max(1, r["n"]),
                  sample={"entry": r["name"], "options": kind, "max_rel_diff": r["maxrel"]} if len(chk.samples) < 9 else None)
         if job[0] in ("sf", "dg"):
-            if not r["maxrel"] <= 1e-11:
+            # sum factorisation: a table entry just below table_atol (1e-9) is clamped to zero in the full table but not in the
+            # product of its 1D factor tables, so the two kernels may legitimately differ by a few table_atol
+            if not r["maxrel"] <= (4e-9 if job[0] == "sf" else 1e-11):
                 chk.violation(f"c10:{kind}:{r['name']}", f"{kind}: tensor differs from the reference compilation (rel {r['maxrel']})", r)
         else:
             t = tols[job[2]]
